@@ -14,7 +14,7 @@ pub fn prop() -> Prop {
         rule: "(i) all byte strings of length <=5 (thorough 6) over a 24-byte JSON alphabet and <=4 (5) over 28 bytes incl. invalid UTF-8, under every --on-error policy up to length 4 (5); (ii) every prefix and every single-byte corruption (by each of 28 bytes, at each offset) of every U1 document and of touching pairs over the core; (iii) structural families up to 4 KiB with nesting <= 64; (iv) every pure function applied to every argument tuple (arity <= 3) over a 24-atom menu incl. ill-typed ones, on 4 inputs; (v) multi-byte characters at every byte offset 0..40 of string arguments and of expression texts in every option; (vi) %+every ASCII byte in strftime formats, out-of-range instants. Non-trivial = the input is not a clean stream / the call is not the documented happy path; distinct by construction",
         explanation: "exhaustive enumeration; oracle: the run returns (Ok or Err) without a panic (caught in-process), abort or hang (worker watchdog + breadcrumb)",
         assumptions: COMMON_ASSUMPTIONS.to_vec(),
-        guards: vec!["invalid-utf8-input", "policy-panic", "truncated-document", "ill-typed-call", "multibyte-at-offset-32", "strftime-byte"],
+        guards: vec!["regex-calls-nested-under-a-cache", "invalid-utf8-input", "policy-panic", "truncated-document", "ill-typed-call", "multibyte-at-offset-32", "strftime-byte"],
         budget_s: (120, 3000),
         single_worker: false,
         run,
@@ -317,6 +317,12 @@ pub const INPUTS: &[&str] = &["{\"a\":[1,2],\"b\":\"é\"}", "[3,\"x\",null]", "\
 
 fn run_exprs(ctx: &mut Ctx, exprs: &[String], input: &str, policy: &str, kind: &str, fname: &str) {
     let mut args: Vec<String> = vec![format!("--on-error={policy}")];
+    // an option that must not matter, in rotation
+    match crate::ctx::h64(&exprs.first()) % 3 {
+        1 => args.push("--regular-expression-cache-size=1".into()),
+        2 => args.push("--regular-expression-cache-size=8".into()),
+        _ => {}
+    }
     for (i, e) in exprs.iter().enumerate() {
         args.push(format!("--select={e}=x{i}"));
     }
@@ -540,7 +546,73 @@ fn part_vi(ctx: &mut Ctx) {
     ctx.level_done("vi:strftime-bytes,out-of-range-instants,numeric-edges");
 }
 
+/// the two regular-expression functions nested in each other's arguments (depth <= 2), patterns with groups that may
+/// stay out of a match, under cache sizes 0, 1 and 2
+fn part_vii(ctx: &mut Ctx) {
+    let t0 = ["\"a\"", "\"b\"", "\"xa\"", "\"(a)|(b)\"", "\"(x)?(a)\"", "\"(b)*a(\u{e9})?\"", "\"[\"", ".nokey", "1", "\"\""];
+    let idx = ["0", "1", "2", "3", "-1", "\"1\""];
+    let mut t1: Vec<String> = Vec::new();
+    for s in t0 {
+        for p in t0 {
+            t1.push(format!("(match {s} {p})"));
+            for i in idx {
+                t1.push(format!("(extract_regex_group {s} {p} {i})"));
+            }
+        }
+    }
+    // representatives of depth 1 used as arguments at depth 2
+    let inner = [
+        "(match \"a\" \"(a)|(b)\")", "(extract_regex_group \"b\" \"(a)|(b)\" 2)", "(extract_regex_group \"b\" \"(a)|(b)\" 1)", "(extract_regex_group \"xa\" \"(x)?(a)\" 0)",
+        "(? (match \"a\" \"a\") \"a\" \"b\")", "(concat (extract_regex_group \"xa\" \"(x)?(a)\" 1) \"a\")", "(extract_regex_group \"a\" \"[\" 0)", "(stringify (match \"b\" \"a\"))",
+    ];
+    let mut t2: Vec<String> = Vec::new();
+    let args2: Vec<&str> = t0.iter().cloned().chain(inner.iter().cloned()).collect();
+    for s in &args2 {
+        for p in &args2 {
+            if !(inner.contains(s) || inner.contains(p)) {
+                continue;
+            }
+            t2.push(format!("(match {s} {p})"));
+            for i in ["0", "1", "2"] {
+                t2.push(format!("(extract_regex_group {s} {p} {i})"));
+            }
+            t2.push(format!("(map (push [] {s} {p}) (match . {p}))"));
+        }
+    }
+    let all: Vec<String> = t1.into_iter().chain(t2).collect();
+    for (bi, batch) in all.chunks(24).enumerate() {
+        if !ctx.mine() {
+            continue;
+        }
+        for cache in ["0", "1", "2"] {
+            let mut args: Vec<String> = vec![format!("--regular-expression-cache-size={cache}")];
+            for (i, e) in batch.iter().enumerate() {
+                args.push(format!("--select={e}=x{i}"));
+            }
+            // two records: the second evaluation of every call site meets a warm cache
+            let case = Case::owned(args, b"1\n2\n".to_vec());
+            let obs = ctx.run(&case);
+            ctx.nontrivial();
+            ctx.guard("regex-calls-nested-under-a-cache");
+            ctx.transition(&("regex-nest", bi, cache));
+            if obs.res.is_panic() {
+                for e in batch {
+                    let c1 = Case::owned(vec![format!("--regular-expression-cache-size={cache}"), format!("--select={e}=x")], b"1\n2\n".to_vec());
+                    let o1 = ctx.run(&c1);
+                    if o1.res.is_panic() {
+                        judge(ctx, &c1, &o1, "regex-call", &format!("cache {cache}: {}", e.split(' ').next().unwrap_or("")));
+                    }
+                }
+            } else {
+                judge(ctx, &case, &obs, "regex-call", "nested");
+            }
+        }
+    }
+    ctx.level_done("vii:regex-functions-nested-to-depth-2-x-cache-sizes-0,1,2");
+}
+
 fn run(ctx: &mut Ctx) {
+    part_vii(ctx);
     part_iii(ctx);
     part_vi(ctx);
     part_v(ctx);
